@@ -2,11 +2,13 @@
 \* of the six payload classes; the theorems also for every dependency-closed part of each graph.
 CONSTANTS
   Atomic = TRUE
+  DropDetached = TRUE
   Namespace = {1}
   M = 3
   MaxTs = 2
   Classes = {"ok", "guest", "needs", "badSig", "rejectFirst", "rejectLater"}
   MaxBad = 3
+  AllowDetached = FALSE
   Emit = TRUE
   EmitMod = 1
 INIT InitGraphs
